@@ -80,6 +80,13 @@ RelReachClauses(S, d, prune, p2, rs2, reached, orcs) ==
         ex  == S.exact
         ptol(s) == IF ex THEN 2 * orcs[1].tol[s] + 4 ELSE 1000000
         G == 4000
+        \* without the oracle there is no bound H for the stopping error; the distance between
+        \* the two runs' numbers for the competitors of s is what is known about it.  A flip of
+        \* a rounded comparison needs a competitor to move by half the gap between the runs,
+        \* so a gap beyond G + 2 * disc cannot flip in an implementation that compares
+        \* rounded values, whatever the stopping error is.
+        disc(s) == LET ds == {FixDist(Fx(p2[rel.pi[g.tr[s][k].t]]), Fx(r1.prob[g.tr[s][k].t])) : k \in DOMAIN g.tr[s]}
+                   IN  CHOOSE x \in ds : \A y \in ds : y <= x
     IN  (IF ~IsPresentationRel(g, rel) \/ S.descs[2] # TransformGame(g, rel)
          THEN {"Machinery.BadTransform"} ELSE {})
         \cup (IF Len(p2) # g.n \/ Len(rs2) # g.n \/ Len(r1.prob) # g.n \/ Len(r1.rstrat) # g.n
@@ -92,7 +99,8 @@ RelReachClauses(S, d, prune, p2, rs2, reached, orcs) ==
                     s \in {s \in 1..g.n : p2[rel.pi[s]].z # r1.prob[s].z}}
                 \cup {"C13.RStratRenamed s=" \o S2(s) :
                     s \in {s \in 1..g.n : g.owner[s] # PR /\ ~r1.rstrat[s].none /\
-                             LET j == ClearOpt(g.owner[s], g.tr[s], r1.prob, G + (IF ex THEN 2 * ptol(s) ELSE 0))
+                             LET j == IF disc(s) >= 100000000 THEN 0
+                                      ELSE ClearOpt(g.owner[s], g.tr[s], r1.prob, G + (IF ex THEN 2 * ptol(s) ELSE 2 * disc(s)))
                              IN  j # 0 /\ ptol(s) < Nano /\
                                  ~( r1.rstrat[s].acts = <<g.tr[s][j].a>>
                                     /\ rs2[rel.pi[s]].acts = <<Alpha(rel, g.tr[s][j].a)>> )}}
@@ -139,7 +147,9 @@ RelClauses(S, d, prune, o, outs, orcs) ==
                                            /\ (g.owner[s] = P1 => e.a \in SeqSet(o1.rstrat[s].acts))
                                            /\ (prune /\ g.owner[s] = P1 => ~o1.prob[e.t].z))
                              IN  Len(row) > 0 /\ rtol(s) < Nano /\
-                                 LET j == ClearOpt(g.owner[s], row, o1.rew, G + 2 * rtol(s))
+                                 LET ds == {FixDist(Fx(o.rew[rel.pi[row[k].t]]), Fx(o1.rew[row[k].t])) : k \in DOMAIN row}
+                                     dr == IF ex THEN 0 ELSE CHOOSE x \in ds : \A y \in ds : y <= x
+                                     j  == IF dr >= 100000000 THEN 0 ELSE ClearOpt(g.owner[s], row, o1.rew, G + 2 * rtol(s) + 2 * dr)
                                  IN  j # 0 /\
                                      ~( o1.fstrat[s].acts = <<row[j].a>>
                                         /\ o.fstrat[rel.pi[s]].acts = <<Alpha(rel, row[j].a)>> )}}
